@@ -129,11 +129,21 @@ def run(p, report, tier):
                 "(same NaN guard on the kernel block before the precomputed clone is used); the precomputed kernel "
                 "comes from the wrapped classifier's metric / metric_dict", floor=4)
     ci = p.get_class("IndexClassifierWrapper")
+    # normal form of the three siblings: a shared private implementation (`return self._impl("predict", idx)`)
+    # is beta-reduced and `getattr(x, "predict")` folded back to `x.predict`
+    from ..astutil import expand_delegation, fold_const_getattr
+    from ..index import FuncInfo
+    pm = {}
+    for m in ("predict", "predict_proba", "predict_freq"):
+        f0 = ci.methods.get(m)
+        if f0 is None:
+            raise AnalysisError(f"IndexClassifierWrapper.{m} vanished")
+        nf = FuncInfo(f0.name, fold_const_getattr(expand_delegation(p, f0)), f0.module, cls=f0.cls, parent=f0.parent)
+        nf.qual = f0.qual
+        pm[m] = nf
     # ---- R19.1
     for m in ("predict", "predict_proba", "predict_freq"):
-        f = ci.methods.get(m)
-        if f is None:
-            raise AnalysisError(f"IndexClassifierWrapper.{m} vanished")
+        f = pm[m]
         calls = deleg_calls(f.node)
         if len(calls) < 3:
             raise AnalysisError(f"IndexClassifierWrapper.{m}: expected 3 delegated returns, found {len(calls)}")
@@ -206,13 +216,13 @@ def run(p, report, tier):
                            detail=f"from self.base_{a}" if ok else
                            f"self.{a} is not restored from self.base_{a} although its siblings are restored from the base state")
     # ---- R19.4
-    bodies = {m: norm_sibling(ci.methods[m].node) for m in ("predict", "predict_proba", "predict_freq")}
+    bodies = {m: norm_sibling(pm[m].node) for m in ("predict", "predict_proba", "predict_freq")}
     same = bodies["predict"] == bodies["predict_proba"] == bodies["predict_freq"]
     report.add("R19.4", "IndexClassifierWrapper.predict*", "siblings identical up to the delegated method name",
                f"{ci.file}:{ci.node.lineno}", same,
                detail="identical" if same else "the three predict* methods differ in more than the delegated method")
     for m in ("predict", "predict_proba", "predict_freq"):
-        f = ci.methods[m]
+        f = pm[m]
         tree = FuncTree(f.node)
         guard = [n for n in ast.walk(f.node) if isinstance(n, ast.If) and "isnan" in ast.unparse(n.test)
                  and ".all()" not in ast.unparse(n.test) and "np.all(" not in ast.unparse(n.test)
